@@ -310,7 +310,6 @@ fn run_case<T: Sc>(ctx: &Ctx, c: &Case, prop: &str, tt: &TTable, seed: u64) {
             }
         }
     }
-    let _ = kappa_scaled;
     // K = 2^15: nalgebra's closed-form inverse of a 4 x 4 matrix was measured at 6250 eps kappa (XExpSin, spread weights,
     // kappa 6.7e8: residual ||H^T H X - I|| = 7e-3 where a Cholesky inverse reaches 2e-8); see DESIGN 12.3
     let tol_rel = 32768.0 * eps * kappa;
@@ -481,7 +480,9 @@ fn run_case<T: Sc>(ctx: &Ctx, c: &Case, prop: &str, tt: &TTable, seed: u64) {
                 // where H^T H is invertible in the working precision (for kappa * eps >~ 1 the sign of a variance, and of the
                 // quadratic form under the square root, is rounding noise - the same limit as for C13's diagonal)
                 if !(got.is_finite() && got >= 0.0) {
-                    if comparable {
+                    // well-posedness is a property of the equilibrated problem (units of the parameters do not matter): digits
+                    // remain after the inversion when kappa of the column-scaled H^T H times eps is below 0.1
+                    if comparable || kappa_scaled * eps < 0.1 {
                         ctx.with(|s| s.violate("C14", "band-not-finite-nonnegative", cj(), format!("radius[{}] = {:e} for p = {}", i, got, pv)));
                     } else {
                         ctx.with(|s| s.inc("band_nan_in_numerically_singular_fit"));
@@ -687,7 +688,7 @@ fn cov_cases(thorough: bool) -> Vec<Case> {
                 continue;
             }
             let mp = fam.m() + fam.p();
-            for w in [WKind::None, WKind::Ramp, WKind::InvSigma, WKind::Tiny, WKind::Huge, WKind::Spread, WKind::ZeroAt(2), WKind::NegAt(1), WKind::KeepOnly(mp), WKind::KeepOnly(mp + 1), WKind::KeepOnly(mp + 3), WKind::Giant] {
+            for w in [WKind::None, WKind::Ramp, WKind::InvSigma, WKind::Tiny, WKind::Huge, WKind::Spread, WKind::ZeroAt(2), WKind::NegAt(1), WKind::KeepOnly(mp), WKind::KeepOnly(mp + 1), WKind::KeepOnly(mp + 3), WKind::Giant, WKind::NegRamp, WKind::NegRampZeroAt(2)] {
                 for nv in [0u64, 1, 2] {
                     for amp in [1.0, 1e-5, 1e5, 4e9] {
                         for f32_ in [false, true] {
@@ -732,7 +733,8 @@ fn band_cases(thorough: bool) -> Vec<Case> {
                         }
                         v.push(Case { fam: fam.clone(), n: fam.m() + fam.p() + nu, prov, par: false, w, noise_variant: 1, level: 1e-3, amp: 1.0, solver: 0, f32_, eps: 0.0 });
                         if nu % 7 == 2 && prov == Prov::Hand {
-                            for amp in [1e-6, 1e6] {
+                            // 1e-9 / 1e12: products of two variances leave the range of f32
+                            for amp in [1e-6, 1e6, 1e-9, 1e12] {
                                 v.push(Case { fam: fam.clone(), n: fam.m() + fam.p() + nu, prov, par: false, w, noise_variant: 1, level: 1e-3, amp, solver: 0, f32_, eps: 0.0 });
                             }
                         }
